@@ -177,6 +177,38 @@ def register(GROUPS, c2g, incs, REPO, HERE, STRUCTS, Group):
         ns = one(sl.find_nodes(F, lambda n: n.get("kind") == "IfStmt" and sl.refs(n["inner"][0]) == {"bvalue"}), "save: switch value test")
         t, i = sl.emit_cond(ns["inner"][0], "save_switch_boolean", S, params=("bvalue",), want_params=["bvalue"])
         g.add(t, i)
+        # ---- the string holder: sc_options_string_set (the one place where parse / load_ini / load_json store a string option) and
+        # sc_options_string_get (what save and print_summary read).  SC_FREE / SC_STRDUP are the effects sc_free / sc_strdup (their
+        # arguments are outputs); a chained assignment `X = Y = e` is read as `Y = e; X = Y`; strcmp is symbolic.
+        def unchain(stmts):
+            out = []
+            for s_ in stmts:
+                if s_.get("kind") == "BinaryOperator" and s_.get("opcode") == "=":
+                    r = c2g.skip_parens(s_["inner"][1])
+                    while r.get("kind") == "ImplicitCastExpr" and r.get("castKind") in ("LValueToRValue", "NoOp"):
+                        r = c2g.skip_parens(r["inner"][0])
+                    if r.get("kind") == "BinaryOperator" and r.get("opcode") == "=":
+                        inner_l = r["inner"][0]
+                        read = dict(kind="ImplicitCastExpr", castKind="LValueToRValue", type=inner_l.get("type"), inner=[inner_l])
+                        out += unchain([r]) + [dict(s_, inner=[s_["inner"][0], read])]
+                        continue
+                out.append(s_)
+            return out
+        SF = "sc_options_string_set"
+        F = fn(SF)
+        body = [c for c in F["inner"] if c.get("kind") == "CompoundStmt"][0].get("inner", [])
+        t, i = sl.emit_block(unchain(body), "holder_set", ["s_string_var_deref", "s_string_value", "*ghosts"], SF, params=("s_string_value", "newval"),
+                             want_params=["s_string_value", "newval", "sc_strdup_ret"], effects=("sc_free", "sc_strdup"), effect_skip_args={"sc_free": (0,), "sc_strdup": (0,)},
+                             comment="returns (*s->string_var, s->string_value, what is freed, what is duplicated); sc_strdup_ret = the copy SC_STRDUP returns")
+        g.add(t, i)
+        SG = "sc_options_string_get"
+        F = fn(SG)
+        body = [c for c in F["inner"] if c.get("kind") == "CompoundStmt"][0].get("inner", [])
+        t, i = sl.emit_block(unchain(body), "holder_get", ["ret", "s_string_value", "*ghosts"], SG, params=("s_string_var_deref", "s_string_value", "strcmp_ret"), ret="ret",
+                             want_params=["s_string_var_deref", "s_string_value", "strcmp_ret", "sc_strdup_ret"], effects=("sc_free", "sc_strdup"),
+                             effect_skip_args={"sc_free": (0,), "sc_strdup": (0,)}, symbolic_calls=("strcmp",),
+                             comment="returns (returned text, s->string_value, what is freed, what is duplicated); strcmp_ret = strcmp (*s->string_var, s->string_value)")
+        g.add(t, i)
         return g, [f]
 
     GROUPS["OptionsC17"] = gen_options
